@@ -544,6 +544,9 @@ def gen_template(rng, lang='markup', **opts):
 # --------------------------------------------------------------------------
 # running the real engine
 
+INVALID = ('TemplateSyntaxError', 'BadDirectiveError')
+
+
 def template_class(lang):
     from genshi.template import MarkupTemplate, NewTextTemplate, OldTextTemplate
     return {'markup': MarkupTemplate, 'newtext': NewTextTemplate, 'oldtext': OldTextTemplate}[lang]
@@ -582,14 +585,20 @@ def unroot(ev):
 
 
 def render_real(lang, nodes, data, lookup='lenient'):
-    """['ok', normalised events] or ['err', exception class name]"""
+    """['ok', normalised events] | ['err', exception class name] | ['invalid', class name] when the
+    template source is rejected at construction"""
     cls = template_class(lang)
     try:
         tmpl = cls(source(lang, nodes), lookup=lookup)
+    except Exception as e:   # noqa  -- not a template of the grammar (only shrinking produces these)
+        return ['invalid', type(e).__name__]
+    try:
         ev = norm_events(tmpl.generate(**data_kwargs(data)))
     except RecursionError:
         return ['err', 'RecursionError']
     except Exception as e:   # noqa
+        if type(e).__name__ in INVALID:
+            return ['invalid', type(e).__name__]     # directive expressions are parsed on first use
         return ['err', type(e).__name__]
     if lang == 'markup':
         ev = unroot(ev)
@@ -697,3 +706,123 @@ def norm_events_merge(ev):
         else:
             out.append(list(e))
     return out
+
+
+# --------------------------------------------------------------------------
+# grammar membership (shrinking a failing case must not leave the grammar)
+
+import re as _re
+_NAME = _re.compile(r'^[a-z][a-z0-9]*$')
+_KEYWORDS = {'in', 'is', 'if', 'or', 'as', 'and', 'not', 'for', 'def', 'del', 'try', 'len', 'id', 'py', 'r'}
+_SAFE = set('ab <&1.kjidXYZvt\n')
+
+
+def ok_name(n):
+    return isinstance(n, str) and bool(_NAME.match(n)) and n not in _KEYWORDS
+
+
+def ok_key(n):
+    return isinstance(n, str) and bool(_NAME.match(n))
+
+
+def ok_str(s):
+    return isinstance(s, str) and set(s) <= _SAFE
+
+
+def ok_expr(e):
+    try:
+        k = e[0]
+        if k == 'v':
+            return ok_name(e[1])
+        if k == 'n':
+            return len(e) == 1
+        if k == 'b':
+            return isinstance(e[1], bool)
+        if k == 'i':
+            return isinstance(e[1], int) and not isinstance(e[1], bool)
+        if k == 's':
+            return ok_str(e[1])
+        if k == 'l':
+            return all(a[0] in 'nbis' and ok_expr(a) for a in e[1])
+        if k == 'd':
+            return all(ok_key(kk) and a[0] in 'nbis' and ok_expr(a) for kk, a in e[1])
+        if k in ('eq', 'ix'):
+            if k == 'eq' and (e[1][0] == 'not' or e[2][0] == 'not'):
+                return False
+            if k == 'ix' and e[1][0] == 'not':
+                return False
+            return ok_expr(e[1]) and ok_expr(e[2])
+        if k in ('not', 'len'):
+            return ok_expr(e[1])
+        if k == 'call':
+            return ok_name(e[1]) and all(ok_expr(a) for a in e[2])
+    except Exception:
+        return False
+    return False
+
+
+def ok_dir(name, arg, elem_form):
+    try:
+        if name == 'def':
+            return ok_name(arg[0]) and all(ok_name(p) for p in arg[1])
+        if name == 'for':
+            return ok_name(arg[0]) and ok_expr(arg[1])
+        if name in ('if', 'attrs'):
+            return ok_expr(arg) and not (elem_form and name == 'attrs')
+        if name in ('when', 'choose'):
+            return arg is None or ok_expr(arg)
+        if name == 'strip':
+            return not elem_form and (arg is None or ok_expr(arg))
+        if name == 'otherwise':
+            return arg is None
+        if name == 'with':
+            return len(arg) >= 1 and all(ok_name(n) and ok_expr(x) for n, x in arg)
+        if name == 'replace':
+            return ok_expr(arg)
+        if name == 'content':
+            return not elem_form and ok_expr(arg)
+    except Exception:
+        return False
+    return False
+
+
+def valid_nodes(nodes, lang='markup'):
+    try:
+        for n in nodes:
+            k = n[0]
+            if k == 't':
+                if not ok_str(n[1]) or (lang != 'markup' and set(n[1]) & set('$#{\\')):
+                    return False
+            elif k == 'e':
+                if not ok_expr(n[1]):
+                    return False
+            elif k == 'c':
+                if not (ok_name(n[1]) and all(ok_expr(a) for a in n[2])):
+                    return False
+            elif k == 'el':
+                if lang != 'markup' or not ok_name(n[1]):
+                    return False
+                if not all(ok_key(a) and ok_str(v) for a, v in n[2]) or len(set(a for a, _ in n[2])) != len(n[2]):
+                    return False
+                if len(set(d for d, _ in n[3])) != len(n[3]) or not all(ok_dir(d, a, False) for d, a in n[3]):
+                    return False
+                if not valid_nodes(n[4], lang):
+                    return False
+            elif k == 'd':
+                if n[1] == 'replace' and lang != 'markup':
+                    return False
+                if not ok_dir(n[1], n[2], True) or not valid_nodes(n[3], lang):
+                    return False
+            else:
+                return False
+        return True
+    except Exception:
+        return False
+
+
+def valid_data(data):
+    try:
+        return all(ok_name(n) and v[0] in 'nbisld' and ok_expr(v) for n, v in data) and \
+            len(set(n for n, _ in data)) == len(data)
+    except Exception:
+        return False
